@@ -168,12 +168,20 @@ func checkC07(c *Ctx, r *Report) {
 	r.rule("C07.R3", "Session-Id, CC-Request-Type and CC-Request-Number of the answer are assigned from the request on every path to Marshal", 3)
 	r.rule("C07.R4", "the unknown subscriber / rating group edge returns without writing any balance", 1)
 	r.rule("C07.R5", "the balance write-back dominates the answer (store before acknowledge)", 1)
+	r.rule("C07.R6", "the handler keeps no state between requests (no captured or package-level variable written)", 1)
 
-	abmfRules(c, r, "C07.R1", "C07.R2", "C07.R3", "C07.R4", "C07.R5")
+	abmfRules(c, r, "C07.R1", "C07.R2", "C07.R3", "C07.R4", "C07.R5", "C07.R6")
 }
 
 // abmfRules runs the account-server rules under the given rule ids ("" = skip).
-func abmfRules(c *Ctx, r *Report, R1, R2, R3, R4, R5 string) {
+func abmfRules(c *Ctx, r *Report, R1, R2, R3, R4, R5, R6 string) {
+	if R6 == "" {
+		R6 = R1
+	}
+	if !handlerStateless(c, r, R6, "pkg/abmf", "handleCCR") {
+		r.blockedBy("the handler keeps state between requests", R1, R2, R3, R4, R5)
+		return // the model below assumes per-invocation variables
+	}
 	m := buildAbmfModel(c)
 	fe := m.fe
 	f := m.f
